@@ -6,6 +6,7 @@ use loom::sync::{Condvar, Mutex};
 use serde_json::{json, Value};
 use std::collections::{BTreeMap, BTreeSet, HashMap};
 use std::sync::atomic::{AtomicUsize, Ordering};
+mod model16;
 macro_rules! outln { ($($a:tt)*) => { { use std::io::Write; let _ = writeln!(std::io::stdout(), $($a)*); } } }
 
 static ITERS: AtomicUsize = AtomicUsize::new(0);
@@ -13,6 +14,9 @@ static EVENTS: AtomicUsize = AtomicUsize::new(0);
 static EPOCH: AtomicUsize = AtomicUsize::new(1);
 static TRACE: std::sync::Mutex<Vec<String>> = std::sync::Mutex::new(Vec::new());
 static NAMES: std::sync::Mutex<Vec<(usize, &'static str)>> = std::sync::Mutex::new(Vec::new());
+/// structured copy of the lock trace of the current execution, for the model of part 5 (model16.rs)
+static EVLOG: std::sync::Mutex<Vec<model16::Ev>> = std::sync::Mutex::new(Vec::new());
+fn tnum() -> u32 { tid().chars().filter(|c| c.is_ascii_digit()).collect::<String>().parse().unwrap_or(999) }
 
 #[derive(Clone, Copy, PartialEq)]
 enum OnceSt { Idle, Running, Done }
@@ -28,6 +32,8 @@ fn trace(ev: &str, id: usize) {
     EVENTS.fetch_add(1, Ordering::Relaxed);
     let name = NAMES.lock().unwrap().iter().find(|(i, _)| *i == id).map(|(_, n)| *n).unwrap_or("?");
     let mut t = TRACE.lock().unwrap(); if t.len() < 4000 { t.push(format!("{} {} {}#{:x}", tid(), ev, name, id & 0xffff)) }
+    let kind = match ev { "acquire?" => 0, "acquired" => 1, "released" => 2, "once-enter" => 3, "once-exit" => 4, _ => 5 };
+    let mut l = EVLOG.lock().unwrap(); if l.len() < 20000 { l.push((tnum(), kind, id)) }
 }
 fn acquire(id: usize, what: &'static str) {
     { let mut n = NAMES.lock().unwrap(); if !n.iter().any(|(i, _)| *i == id) { n.push((id, short(what))) } }
@@ -36,23 +42,21 @@ fn acquire(id: usize, what: &'static str) {
     let mut g = s.held.lock().unwrap();
     while *g { g = s.cv.wait(g).unwrap(); }
     *g = true;
-    drop(g);
     trace("acquired", id);
+    drop(g);
 }
-fn release(id: usize) { let s = sem(id); let mut g = s.held.lock().unwrap(); *g = false; drop(g); s.cv.notify_one(); trace("released", id); }
+fn release(id: usize) { let s = sem(id); let mut g = s.held.lock().unwrap(); *g = false; trace("released", id); drop(g); s.cv.notify_one(); }
 fn once(id: usize, init: &mut dyn FnMut()) {
     let o = oncem(id);
     let mut g = o.st.lock().unwrap();
     loop {
         match *g {
-            OnceSt::Done => { drop(g); trace("once-done", id); return }
+            OnceSt::Done => { trace("once-done", id); drop(g); return }
             OnceSt::Running => { g = o.cv.wait(g).unwrap(); }
             OnceSt::Idle => {
-                *g = OnceSt::Running; drop(g);
-                trace("once-enter", id);
+                *g = OnceSt::Running; trace("once-enter", id); drop(g);
                 init();
-                let mut g2 = o.st.lock().unwrap(); *g2 = OnceSt::Done; drop(g2); o.cv.notify_all();
-                trace("once-exit", id);
+                let mut g2 = o.st.lock().unwrap(); *g2 = OnceSt::Done; trace("once-exit", id); drop(g2); o.cv.notify_all();
                 return;
             }
         }
@@ -81,6 +85,8 @@ fn run_op(op: usize, e: &Envelope) -> String {
         14 => { let _ = e.format_flat(); let g = bc_envelope::extension::expressions::GLOBAL_FUNCTIONS.get(); let n = g.as_ref().unwrap().name(&Function::from(1u64)); let t = e.format_flat(); drop(g); format!("{n}|{t}") }
         // an application that builds its OWN format context (register_tags_in on a private FormatContext) and formats with it
         15 => { let mut ctx = FormatContext::default(); bc_envelope::register_tags_in(&mut ctx); e.format_opt(Some(&ctx)) }
+        // (internal, not part of OPS) first-use initialisation alone, through a read access that formats nothing
+        16 => { bc_envelope::with_format_context!(|_ctx: &FormatContext| {}); String::new() }
         // an application registering its own tag name in the global format context (the documented use of with_format_context_mut!)
         _ => { bc_envelope::with_format_context_mut!(|ctx: &mut FormatContext| { ctx.tags_mut().insert(dcbor::Tag::new(999, "custom-tag")); }); String::new() }
     }
@@ -166,6 +172,98 @@ fn install() {
     assert!(bc_envelope::verif_sync::install_backend(bc_envelope::verif_sync::Backend { acquire, release, once, epoch }));
     assert!(dcbor::verif_sync::install_backend(dcbor::verif_sync::Backend { acquire, release, once, epoch }));
 }
+/// Runs the operations of `seq` one after the other in ONE single-thread execution on never-initialised registries and returns
+/// the lock / once event log of each.
+fn record_single(seq: &[usize]) -> Vec<Vec<model16::Ev>> {
+    let out = std::sync::Arc::new(std::sync::Mutex::new(Vec::new()));
+    let (o2, seq2) = (out.clone(), seq.to_vec());
+    loom::model(move || {
+        EPOCH.fetch_add(1, Ordering::SeqCst);
+        EVLOG.lock().unwrap().clear();
+        let e = shared_envelope();
+        let mut logs = vec![EVLOG.lock().unwrap().clone()]; // element 0: what building the shared envelope does
+        for op in &seq2 { EVLOG.lock().unwrap().clear(); let _ = run_op(*op, &e); logs.push(EVLOG.lock().unwrap().clone()); }
+        *o2.lock().unwrap() = logs;
+    });
+    let r = out.lock().unwrap().clone(); r
+}
+fn obj_name(id: usize) -> String { NAMES.lock().unwrap().iter().find(|(i, _)| *i == id).map(|(_, n)| n.to_string()).unwrap_or_else(|| "lock".into()) }
+/// programs of the 16 operations + the internal init-only read (index 16) + building the shared envelope (index 17, BUILD), each
+/// extracted from a run alone on never-initialised registries (after the envelope was built, as in every execution loom explores)
+const BUILD: usize = 17;
+fn extract_programs() -> Result<model16::Programs, String> {
+    let mut p = model16::Programs::default();
+    let build = record_single(&[]).remove(0);
+    let mut tmp = model16::Programs::default(); tmp.add_op(&build, &obj_name).map_err(|e| format!("build: {e}"))?;
+    p.objs = tmp.objs.clone(); p.names = tmp.names.clone(); p.bodies = tmp.bodies.clone();
+    for op in 0..=16usize { let log = record_single(&[op]).pop().unwrap_or_default(); p.add_op(&log, &obj_name).map_err(|e| format!("{}: {e}", OPS.get(op).copied().unwrap_or("init-only")))?; }
+    p.add_op(&build, &obj_name).map_err(|e| format!("build: {e}"))?;
+    Ok(p)
+}
+/// `model16 <tier>`: extraction, single-thread validation in all 8 registry states, exhaustive exploration for every thread count 2..16
+fn model16_main(tier: &str) {
+    install();
+    let t0 = std::time::Instant::now();
+    let progs = match extract_programs() { Ok(p) => p, Err(e) => { outln!("MODEL16 {}", json!({"validated": false, "why": format!("extraction: {e}")})); return } };
+    let n = OPS.len();
+    // (2a) for every registry state and operation the model predicts the recorded single-thread event sequence
+    let m1 = model16::Model { p: &progs, thread_programs: progs.ops.clone() };
+    let mut checked = 0; let mut events = 0usize; let mut bad: Vec<String> = vec![];
+    for flags in 0..STATES { for op in 0..n {
+        let mut seq: Vec<usize> = vec![]; if flags & 4 != 0 { seq.push(16) } if flags & 1 != 0 { seq.push(6) } if flags & 2 != 0 { seq.push(12) } seq.push(op);
+        let logs = record_single(&seq);
+        let got: Vec<(u8, usize)> = logs.iter().flatten().filter(|e| e.1 != 0).map(|e| (e.1, e.2)).collect();
+        match m1.predict(&std::iter::once(BUILD as u16).chain(seq.iter().map(|o| *o as u16)).collect::<Vec<_>>(), model16::Global { held: 0, running: 0, done: 0 }) {
+            Ok((want, _)) => { if want != got { bad.push(format!("state {flags} op {}: the model predicts {} events, the code did {}", OPS[op], want.len(), got.len())) } }
+            Err(e) => bad.push(format!("state {flags} op {}: {e}", OPS[op])),
+        }
+        checked += 1; events += got.len();
+    } }
+    // two operations in sequence, every ordered pair, from never-initialised registries
+    for a in 0..n { for b in 0..n {
+        let logs = record_single(&[a, b]);
+        let got: Vec<(u8, usize)> = logs.iter().flatten().filter(|e| e.1 != 0).map(|e| (e.1, e.2)).collect();
+        match m1.predict(&[BUILD as u16, a as u16, b as u16], model16::Global { held: 0, running: 0, done: 0 }) {
+            Ok((want, _)) => { if want != got { bad.push(format!("sequence {};{}: model {} events, code {}", OPS[a], OPS[b], want.len(), got.len())) } }
+            Err(e) => bad.push(format!("sequence {};{}: {e}", OPS[a], OPS[b])),
+        }
+        checked += 1; events += got.len();
+    } }
+    if !bad.is_empty() { outln!("MODEL16 {}", json!({"validated": false, "why": "single-thread validation", "mismatches": bad.iter().take(6).collect::<Vec<_>>(), "mismatch_count": bad.len()})); return }
+    // (3) exploration. Thread programs: every single operation; menus: N threads of one kind, N split over two kinds, one thread of each kind
+    let thorough = tier == "thorough";
+    let cap: u64 = if thorough { 6_000_000 } else { 1_500_000 };
+    let mut menus: Vec<(String, Vec<usize>)> = vec![];
+    let ns: Vec<usize> = if thorough { (2..=16).collect() } else { vec![2, 3, 5, 8, 16] };
+    for nthreads in &ns {
+        for a in 0..n { let mut c = vec![0; n]; c[a] = *nthreads; menus.push((format!("{}x {}", nthreads, OPS[a]), c)); }
+        for a in 0..n { for b in (a + 1)..n {
+            let splits: Vec<usize> = if thorough { (1..*nthreads).collect() } else { let mut v = vec![1, nthreads / 2, nthreads - 1]; v.sort(); v.dedup(); v.retain(|x| *x >= 1 && *x < *nthreads); v };
+            for k in splits { let mut c = vec![0; n]; c[a] = k; c[b] = nthreads - k; menus.push((format!("{}x {} + {}x {}", k, OPS[a], nthreads - k, OPS[b]), c)); }
+        } }
+    }
+    if thorough { menus.push(("one thread of each of the 16 operations".into(), vec![1; n])); }
+    { let mut c = vec![0; n]; for o in [0usize, 2, 4, 6, 7, 10, 12, 13, 15] { c[o] = 1 } menus.push(("one thread of each of 9 operations (format, tree_format, diagnostic_annotated, register_tags, known_value_name, tags_lookup, register_custom_tag, known_values_guard_held, private_context)".into(), c)); }
+    for t in [[0usize, 6, 12], [1, 6, 7], [2, 10, 6], [4, 13, 6], [15, 6, 0], [5, 12, 14], [3, 8, 9]] { for per in [2usize, 5] { let mut c = vec![0; n]; for o in t { c[o] = per } if per == 5 { c[t[0]] = 6 } menus.push((format!("{}+{}+{} threads of {} / {} / {}", c[t[0]], per, per, OPS[t[0]], OPS[t[1]], OPS[t[2]]), c)); } }
+    let reduced = progs.reduced();
+    let model = model16::Model { p: &reduced, thread_programs: reduced.ops[..n].to_vec() };
+    let g0 = m1.predict(&[BUILD as u16], model16::Global { held: 0, running: 0, done: 0 }).map(|x| x.1).unwrap_or(model16::Global { held: 0, running: 0, done: 0 });
+    let results: Vec<(String, model16::Explored)> = {
+        let next = AtomicUsize::new(0); let out = std::sync::Mutex::new(vec![]);
+        std::thread::scope(|s| { for _ in 0..8 { s.spawn(|| loop { let k = next.fetch_add(1, Ordering::SeqCst); if k >= menus.len() { break } let r = model16::explore(&model, &menus[k].1, cap, &g0); out.lock().unwrap().push((menus[k].0.clone(), r)); }); } });
+        out.into_inner().unwrap()
+    };
+    let states: u64 = results.iter().map(|r| r.1.states).sum(); let transitions: u64 = results.iter().map(|r| r.1.transitions).sum();
+    let deadlocks: Vec<Value> = results.iter().filter_map(|(c, r)| r.deadlock.as_ref().map(|d| json!({"configuration": c, "what": d.chars().take(1500).collect::<String>()}))).collect();
+    let capped: Vec<&String> = results.iter().filter(|r| r.1.capped).map(|r| &r.0).collect();
+    let largest = results.iter().max_by_key(|r| r.1.states).map(|(c, r)| json!({"configuration": c, "states": r.states, "transitions": r.transitions, "most_threads_blocked_at_once": r.max_blocked}));
+    outln!("MODEL16 {}", json!({"validated": true, "single_thread_sequences_predicted_exactly": checked, "events_compared": events, "model": progs.describe(),
+        "programs": (0..n).map(|o| (OPS[o].to_string(), progs.show(&progs.ops[o]))).collect::<BTreeMap<_, _>>(),
+        "programs_reduced_for_the_exploration": (0..n).map(|o| (OPS[o].to_string(), reduced.show(&reduced.ops[o]))).collect::<BTreeMap<_, _>>(),
+        "thread_counts": ns, "configurations": results.len(), "states": states, "transitions": transitions, "terminal_states": results.iter().map(|r| r.1.terminal_states).sum::<u64>(),
+        "most_threads_blocked_at_once": results.iter().map(|r| r.1.max_blocked).max().unwrap_or(0), "largest": largest,
+        "deadlocks": deadlocks, "configurations_stopped_by_the_state_cap": capped, "state_cap": cap, "secs": t0.elapsed().as_secs_f64()}));
+}
 fn cfg_name(cfg: &Config) -> String { cfg.iter().map(|p| p.iter().map(|o| OPS[*o]).collect::<Vec<_>>().join(";")).collect::<Vec<_>>().join(" || ") }
 
 /// child: one loom exploration. Prints `RESULT <json>` on success; a failure panics (loom aborts the model) after writing the failing trace.
@@ -195,6 +293,12 @@ fn child(cfg: Config, bound: Option<usize>, fail_file: String) {
     }));
     let refset = reference(&cfg);
     let ref_n = refset.joint.len();
+    // part 5: every explored schedule is replayed as a run of the lock-protocol model extracted from single-thread runs (model16.rs)
+    let progs = extract_programs().ok();
+    let diverged = std::sync::Arc::new(std::sync::Mutex::new((0usize, 0usize, String::new())));
+    let dv = diverged.clone();
+    let thread_programs: Vec<Vec<model16::Ins>> = progs.as_ref().map(|p| { let mut v: Vec<Vec<model16::Ins>> = cfg.iter().map(|t| t.iter().flat_map(|o| p.ops[*o].clone()).collect()).collect(); v.push([BUILD, 1usize, 4, 7, 10].iter().flat_map(|o| p.ops[*o].clone()).collect()); v }).unwrap_or_default();
+    let nthreads = cfg.len();
     let mut b = loom::model::Builder::new();
     b.preemption_bound = bound;
     b.max_branches = 200_000;
@@ -204,7 +308,7 @@ fn child(cfg: Config, bound: Option<usize>, fail_file: String) {
     b.check(move || {
         ITERS.fetch_add(1, Ordering::Relaxed);
         EPOCH.fetch_add(1, Ordering::SeqCst);
-        TRACE.lock().unwrap().clear();
+        TRACE.lock().unwrap().clear(); EVLOG.lock().unwrap().clear();
         let env = shared_envelope();
         let hs: Vec<_> = cfgc.iter().map(|p| { let (e, p) = (env.clone(), p.clone()); loom::thread::Builder::new().stack_size(1 << 22).spawn(move || run_program(&p, &e)).unwrap() }).collect();
         let outs: Vec<Vec<String>> = hs.into_iter().map(|h| h.join().unwrap()).collect();
@@ -215,9 +319,18 @@ fn child(cfg: Config, bound: Option<usize>, fail_file: String) {
         if !refset.finals.contains(&fin) { panic!("NON-LINEARIZABLE outcome: the quiescent state after all threads finished differs from every sequential order (lost update?): {:?}", fin.iter().map(|s| s.replace('\n', "/").chars().take(120).collect::<String>()).collect::<Vec<_>>()) }
         if !refset.joint.contains(&outs) { nj.fetch_add(1, Ordering::Relaxed); }
         *oc.lock().unwrap().entry(outs).or_insert(0) += 1;
+        if let Some(p) = &progs {
+            let log = EVLOG.lock().unwrap().clone();
+            let m = model16::Model { p, thread_programs: thread_programs.clone() };
+            // loom thread ids: 0 = the main thread (which runs the quiescent probe), 1.. = the spawned threads in spawn order
+            let r = m.replay(&log, &|tid| if tid == 0 { Some(nthreads as u16) } else if (tid as usize) <= nthreads { Some((tid - 1) as u16) } else { None });
+            let mut d = dv.lock().unwrap(); d.0 += 1; if let Err(e) = r { d.1 += 1; if d.2.is_empty() { d.2 = e } }
+        }
     });
+    let (replayed, divergences, first_divergence) = diverged.lock().unwrap().clone();
     let o = outcomes.lock().unwrap();
-    outln!("RESULT {}", json!({"config": name, "threads": cfg.len(), "bound": bound, "schedules": ITERS.load(Ordering::SeqCst), "sync_events": EVENTS.load(Ordering::SeqCst), "distinct_outcomes": o.len(), "sequential_reference_outcomes": ref_n, "schedules_with_an_intermediate_state_observed": nonjoint.load(Ordering::Relaxed), "secs": t0.elapsed().as_secs_f64(), "time_cap_hit": t0.elapsed().as_secs() >= cap_secs}));
+    outln!("RESULT {}", json!({"config": name, "threads": cfg.len(), "bound": bound, "schedules": ITERS.load(Ordering::SeqCst), "sync_events": EVENTS.load(Ordering::SeqCst), "distinct_outcomes": o.len(), "sequential_reference_outcomes": ref_n, "schedules_with_an_intermediate_state_observed": nonjoint.load(Ordering::Relaxed), "secs": t0.elapsed().as_secs_f64(), "time_cap_hit": t0.elapsed().as_secs() >= cap_secs,
+        "schedules_replayed_in_the_model": replayed, "model_divergences": divergences, "first_model_divergence": first_divergence}));
 }
 
 fn configs(tier: &str) -> Vec<(Config, Option<usize>)> {
@@ -248,6 +361,7 @@ fn main() {
         child(cfg, bound, args[4].clone());
         return;
     }
+    if args.get(1).map(|s| s.as_str()) == Some("model16") { model16_main(args.get(2).map(|s| s.as_str()).unwrap_or("quick")); return }
     if args.get(1).map(|s| s.as_str()) == Some("alone") { alone(args[2].parse().unwrap(), args[3].parse().unwrap()); return }
     let root = std::env::var("VERIF_ROOT").unwrap_or_else(|_| "/verif".into());
     let mut tier = std::env::var("VERIF_TIER").unwrap_or_else(|_| "quick".into());
@@ -287,6 +401,8 @@ fn main() {
     let results = std::sync::Mutex::new(Vec::<Value>::new());
     let failures = std::sync::Mutex::new(Vec::<Value>::new());
     let next = AtomicUsize::new(0);
+    // part 5 (model16.rs): the lock-protocol model for 2..16 threads, in its own process, alongside the loom children
+    let model16_child = if replay.is_none() { std::process::Command::new(&exe).arg("model16").arg(&tier).stdout(std::process::Stdio::piped()).stderr(std::process::Stdio::piped()).spawn().ok() } else { None };
     let workers = std::thread::available_parallelism().map(|n| n.get()).unwrap_or(8).min(16);
     std::thread::scope(|s| {
         for _ in 0..workers {
@@ -310,7 +426,19 @@ fn main() {
         }
     });
     let _ = std::fs::remove_file(&table_path);
-    let results = results.into_inner().unwrap(); let failures = failures.into_inner().unwrap();
+    let results = results.into_inner().unwrap(); let mut failures = failures.into_inner().unwrap();
+    let model16: Value = match model16_child.map(|c| c.wait_with_output()) {
+        Some(Ok(o)) => String::from_utf8_lossy(&o.stdout).lines().find(|l| l.starts_with("MODEL16 ")).and_then(|l| serde_json::from_str(&l[8..]).ok()).unwrap_or_else(|| json!({"validated": false, "why": format!("the model process gave no result: {}", String::from_utf8_lossy(&o.stderr).lines().rev().take(3).collect::<Vec<_>>().join(" | "))})),
+        _ => json!({"validated": false, "why": "not run"}),
+    };
+    let replayed: u64 = results.iter().map(|r| r["schedules_replayed_in_the_model"].as_u64().unwrap_or(0)).sum();
+    let divergences: u64 = results.iter().map(|r| r["model_divergences"].as_u64().unwrap_or(0)).sum();
+    let first_div: String = results.iter().filter_map(|r| r["first_model_divergence"].as_str()).find(|s| !s.is_empty()).unwrap_or("").to_string();
+    // the model speaks only if the implementation's traces confirm it: exact single-thread predictions and every loom schedule a run of the model
+    let model_ok = model16["validated"].as_bool().unwrap_or(false) && divergences == 0 && replayed > 0;
+    if model_ok { for d in model16["deadlocks"].as_array().cloned().unwrap_or_default() {
+        failures.push(json!({"config": format!("lock-protocol model, {}", d["configuration"].as_str().unwrap_or("?")), "config_ops": [], "bound": Value::Null, "failure": {"kind": "model-deadlock", "message": d["what"]}}));
+    } }
     if replay.is_some() {
         let kinds: Vec<String> = failures.iter().map(|f| f["failure"]["kind"].as_str().unwrap_or("").to_string()).collect();
         outln!("REPLAY property=C20 reproduced={} runs={} kinds={:?}", !failures.is_empty(), cfgs.len(), kinds);
@@ -344,14 +472,17 @@ fn main() {
             "rule": "a case = one complete thread schedule of a configuration (2..4 loom threads, 1..2 operations each, on one shared envelope) run on the REAL lazy registries and formatter through the synchronisation seam, registries reset to never-initialised at the start of every execution; oracle: terminates (no deadlock / panic / poisoned lock) and the per-thread outputs equal those of SOME sequential order on freshly initialised registries; distinct_nontrivial = sum over configurations of distinct outcome vectors observed",
             "exhaustive": capped_names.is_empty(), "configurations_stopped_by_the_time_cap": capped_names, "configurations": results.len(), "configurations_with_at_least_two_outcomes": multi, "by_shape": by_shape, "slowest_configurations": slowest,
             "bounds": {"threads_max": if tier == "thorough" { 4 } else { 3 }, "preemption_bounds": if tier == "thorough" { "2 threads bound 5 (single ops) / 3 (two-op programs), 3 threads bound 3, 4 threads bound 2" } else { "2 threads: bound 3 for single-operation pairs involving a writer (register_tags, custom tag), bound 2 otherwise and for two-op programs; 3 threads bound 2" }, "loom_branch_cap": 200000},
+            "lock_protocol_model_2_to_16_threads": {"used_for_a_verdict": model_ok, "loom_schedules_replayed_as_runs_of_the_model": replayed, "divergences": divergences, "first_divergence": first_div, "result": model16},
             "operations": OPS, "failed_configurations": failures.len(), "known_findings_met": known_met, "unlisted_violations": viols},
-        "assumptions": ["threads <= 4 (loom's limit); the statement says 2..16: a deadlock cycle needs at most as many threads as locks in the cycle and a first-use race needs two",
+        "assumptions": ["the real code is explored with at most 4 threads (loom's limit); for 2..16 threads the termination clause (no deadlock, nothing left locked) is decided on a lock-protocol model that is extracted from the implementation's own lock traces, must predict every single-thread trace exactly and must admit every schedule loom explored as one of its runs (coverage.lock_protocol_model_2_to_16_threads); the texts returned are compared on the real code only, i.e. with at most 4 threads",
             "dcbor's registry is explored through a vendored copy of dcbor 0.17.1 that differs in three lines (sync import routed through the same seam)",
             "bc-rand's process-wide generator mutex is not routed through the seam; no operation in the alphabet draws randomness",
             "loom explores sequentially consistent interleavings at the seam's lock/once operations; the crate has no unsafe code, atomics or other interior mutability"]});
     let _ = std::fs::create_dir_all(format!("{root}/evidence"));
     std::fs::write(format!("{root}/evidence/C20.json"), serde_json::to_string_pretty(&ev).unwrap()).expect("write evidence");
     outln!("C20 {tier} level=model_checking configurations={} schedules={schedules} sync_events={events} distinct_outcomes={outcomes} failed_configurations={} unlisted_violations={unlisted} wall={:.1}s", results.len(), failures.len(), t0.elapsed().as_secs_f64());
+    outln!("C20 lock-protocol model for 2..16 threads: used_for_a_verdict={model_ok} validated={} loom_schedules_replayed={replayed} divergences={divergences} configurations={} states={} transitions={} deadlocks={}", model16["validated"], model16["configurations"], model16["states"], model16["transitions"], model16["deadlocks"].as_array().map(|a| a.len()).unwrap_or(0));
+    if !model_ok { outln!("  note: the model part gives no verdict on this tree ({}{})", model16["why"].as_str().unwrap_or(""), first_div); }
     if results.is_empty() && failures.is_empty() { eprintln!("MACHINERY: nothing explored"); std::process::exit(2) }
     std::process::exit(if unlisted > 0 { 1 } else { 0 });
 }
